@@ -2,15 +2,17 @@
 import json
 
 def run(ctx):
-    ctx.tlc_mc("MC_Kernels", "MC_Kernels.cfg", workers=1, coverage=False, timeout=900)
+    ctx.tlc_mc("MC_Kernels", "MC_Kernels.cfg", workers=1, coverage=False, timeout=900, cache=True)
     # concurrent column grouping: every intersection graph on N columns x every interleaving of check / union
     ctx.tlc_mc("MC_GroupCols", "MC_GroupCols.thorough.cfg" if ctx.thorough else "MC_GroupCols.quick.cfg", workers=8, timeout=1700, coverage=True)
+    # A: TLC enumerates every unit-triangular 3x3 integer matrix with entries -1..1 and right-hand sides (quick: every 9th)
+    path, objs = ctx.tlc_gen("Gen_Kernels", "Gen_Kernels.cfg", workers=1)
     trace = ctx.path("trace.ndjson")
-    summ, _, _ = ctx.yv("c12", "record", "--seed", ctx.seed, "--tier", ctx.tier, "--out", trace, timeout=1800)
+    summ, _, _ = ctx.yv("c12", "record", "--seed", ctx.seed, "--tier", ctx.tier, "--in", path, "--out", trace, timeout=1800)
     rec = summ["record"]
     r = ctx.tlc_trace("Trace_Kernels", "Trace_Kernels.cfg", trace, timeout=3000)
     ctx.trace_verdict(r, trace, "sparse kernel call")
-    ctx.cov["conformance"].append({"direction": "impl->spec", **rec, "accepted": r["accepted"]})
+    ctx.cov["conformance"].append({"direction": "spec->impl inputs + impl->spec validation", **rec, "accepted": r["accepted"], "tlc_enumerated_cases": len(objs)})
     ctx.cov["evaluations"] += rec["events"]
     ctx.cov["distinct_nontrivial"] += rec["cases"] * 3
     if r["accepted"]:
